@@ -3,7 +3,7 @@ CONSTANTS
   Regions = {1, 2}
   Handles = {1, 2, 3}
   MaxAbs = 1
-  WithShrink = FALSE
+  WithShrink = TRUE
   WithStreams = FALSE
   WithNested = FALSE
   GenDepth = 99
